@@ -80,7 +80,30 @@ let cmd_dp (_p : string) (arg : string) (_impl : string) : string * string =
   | None -> ("UNPARSABLE", "-")
   | Some i ->
     let script = String.sub arg (i + 1) (String.length arg - i - 1) in
-    (run_script script, if _impl = "" then "-" else c01_verdict_ref arg _impl)
+    (* the model's side is the whole pipeline: the install message is rebuilt from the source text by the
+       model compiler (same flow id, same program uid), so the model datapath runs the MODEL's image while
+       the real libccp ran the image portus produced.  For programs inside the typed fragment the verdict
+       below judges the result against the source semantics; outside it (a bind whose target is itself an
+       expression, say) a divergence still shows as a correspondence failure with this input. *)
+    let src = bytes_of_hex (String.sub arg 0 i) in
+    let le b off k = let rec go j acc = if j < 0 then acc else
+                         go (j - 1) (Model.N.add (Model.N.mul acc (n_of_int 256)) (match Stdlib.List.nth_opt b (off + j) with Some x -> x | None -> N0)) in
+      go (k - 1) N0 in
+    let replaced = ref false in
+    let toks = Stdlib.List.map (fun op ->
+        if not !replaced && String.length op > 17 && op.[0] = 'M' && String.sub op 1 4 = "0200" then begin
+          replaced := true;
+          let b = bytes_of_hex (String.sub op 1 (String.length op - 1)) in
+          let sid = le b 4 4 and uid = le b 8 4 in
+          match compile src [] with
+          | Inl (Ok (bin, _)) ->
+            let ne = n_of_int (Stdlib.List.length bin.b_events) and ni = n_of_int (Stdlib.List.length bin.b_instrs) in
+            (match serialize_install sid uid ne ni (serialize_bin bin) with
+             | Ok m -> "M" ^ hex_of_bytes m
+             | _ -> "X-model-cannot-encode-the-install-message")
+          | _ -> "X-model-compiler-rejects-the-source"
+        end else op) (String.split_on_char ' ' script) in
+    (run_script (String.concat " " toks), if _impl = "" then "-" else c01_verdict_ref arg _impl)
 
 (* ctlser install:<n> : does an install message for a program of n statements serialize, and how long is it *)
 let cmd_ctlser (_p : string) (arg : string) (_impl : string) : string * string =
